@@ -924,8 +924,109 @@ def forbid_cases(g):
 
 
 # ============================================================== driver ====
+def wide_lits(n, variant):
+    """n literals over distinct variables, mixed polarities, not in order."""
+    vs = list(range(1, n + 1))
+    if variant == 1:
+        vs = vs[::2] + vs[1::2][::-1]
+    return [v if (v * 7 + variant) % 3 else -v for v in vs]
+
+
+def wide_groups(tier, seed):
+    widths = (15, 16, 17, 18, 20) if tier == 'thorough' else (16, 17, 18)
+    return [{'part': 'wide', 'cls': cls, 'n': n, 'variant': v}
+            for cls in ('CNF', 'OPB') for n in widths for v in (0, 1)]
+
+
+def wide_cases(g):
+    for c in (0, 1):
+        yield dict(g, meth='add_parity', c=c)
+    yield dict(g, meth='cardinality_geq', c=1)
+    yield dict(g, meth='cardinality_leq', c=g['n'] - 1)
+    yield dict(g, meth='cardinality_eq', c=0)
+
+
+def wide_check(case, R=None):
+    """Constraints over 16..20 literals (beyond 16-bit masks): the clauses
+    emitted are compared with the documented encoding as SETS -- a clause over
+    the variables of the constraint forbids exactly the assignment falsifying
+    all its literals, so the expected set is computed per forbidden
+    assignment, no truth table needed."""
+    n, meth, c = case['n'], case['meth'], case['c']
+    lits = wide_lits(n, case['variant'])
+    F = _classes()[case['cls']]()
+    out = []
+
+    def bad(sym, what):
+        out.append({'key': '%s.%s:wide:%s' % (case['cls'], meth, sym),
+                    'what': '%s over %d literals, constant %r: %s' % (meth, n, c, what), 'case': dict(case)})
+    try:
+        getattr(F, meth)(list(lits), c)
+    except Exception as e:
+        bad('exception:' + type(e).__name__, repr(e))
+        return out
+    if hasattr(F, 'constraints'):
+        rows = []
+        native = []
+        for row in F.constraints():
+            if row[-2] == '>=' and row[-1] == 1 and all(co == 1 for (co, _) in row[:-2]):
+                rows.append(frozenset(l for (_, l) in row[:-2]))
+            else:
+                native.append(row)
+    else:
+        rows = [frozenset(cl) for cl in F.clauses()]
+        native = []
+    if R is not None:
+        R.nt = True
+        R.stats['wide_constraints'] += 1
+    if F.number_of_variables() != n:
+        bad('nvars', 'formula declares %d variables' % F.number_of_variables())
+    if meth == 'add_parity':
+        exp = set()
+        for flips in range(1 << n):
+            if bin(flips).count('1') % 2 != c:
+                exp.add(frozenset(-l if (flips >> i) & 1 else l for i, l in enumerate(lits)))
+        if native:
+            bad('clauses', 'parity is documented as clauses, found %r' % (native[:2],))
+        elif set(rows) != exp or len(rows) != len(exp):
+            miss = len(exp - set(rows))
+            extra = len(set(rows) - exp)
+            bad('clauses', '%d clauses, expected %d; %d documented clauses missing, %d others present'
+                % (len(rows), len(exp), miss, extra))
+    elif not native:
+        if meth == 'cardinality_geq':
+            exp = {frozenset(lits)}
+        elif meth == 'cardinality_leq':
+            exp = {frozenset(-l for l in lits)}
+        else:
+            exp = {frozenset([-l]) for l in lits}
+        if set(rows) != exp:
+            bad('clauses', '%d clauses %r..., expected %d' % (len(rows), [sorted(r) for r in rows[:2]], len(exp)))
+    else:
+        # a native pseudo-Boolean constraint: its meaning on the all-true /
+        # all-false / one-true assignments of the literals
+        from engine import tt as _tt  # noqa
+        if len(native) != 1 or rows:
+            bad('clauses', 'expected one native constraint, found %d (+%d clauses)' % (len(native), len(rows)))
+        else:
+            row = native[0]
+            terms = row[:-2]
+
+            def val(true_lits):
+                sv = sum(co for (co, l) in terms if l in true_lits)
+                return sv >= row[-1] if row[-2] == '>=' else sv == row[-1]
+            allt, allf = set(lits), set(-l for l in lits)
+            onet = set([lits[0]]) | set(-l for l in lits[1:])
+            want = {'cardinality_geq': (True, False, True), 'cardinality_leq': (False, True, True),
+                    'cardinality_eq': (False, True, False)}[meth]
+            if (val(allt), val(allf), val(onet)) != want:
+                bad('meaning', 'native constraint %r evaluates to %r on (all true, all false, one true)'
+                    % (row[:3], (val(allt), val(allf), val(onet))))
+    return out
+
+
 CHECKERS = {'lin': lin_check, 'seq': seq_check, 'nrm': nrm_check, 'map': map_check,
-            'forbid': forbid_check}
+            'forbid': forbid_check, 'wide': wide_check}
 
 
 def check_case(case, R=None):
@@ -945,6 +1046,8 @@ def group_cases(g, tier):
         return nrm_cases(g, tier)
     if part == 'map':
         return map_cases(g)
+    if part == 'wide':
+        return wide_cases(g)
     return forbid_cases(g)
 
 
@@ -959,6 +1062,8 @@ def group_weight(g):
         return 35 * len(seq_alphabet(g['cls'], len(g['lits']))) ** 2
     if part == 'nrm':
         return 3000
+    if part == 'wide':
+        return 3 * (1 << g['n'])
     if part == 'map':
         nsub = len(list(map_cases(g)))
         size = g['n'] * g['m']
@@ -970,7 +1075,7 @@ def group_weight(g):
 
 def shards(tier, seed):
     groups = lin_groups(tier, seed) + seq_groups(tier, seed) + nrm_groups(tier, seed) + \
-        split_heavy(map_groups(tier, seed)) + forbid_groups(tier, seed)
+        split_heavy(map_groups(tier, seed)) + forbid_groups(tier, seed) + wide_groups(tier, seed)
     k = 64 if tier == 'thorough' else 48
     # deterministic greedy balancing by estimated weight (heaviest first)
     order = sorted(range(len(groups)), key=lambda i: (-group_weight(groups[i]), i))
